@@ -229,6 +229,28 @@ def standin(tier, seed):
                     evals += 1
             if status_of[ex] != status_of[non]:
                 fail("existence oracle: %r answers %r but %r answers %r" % (ex, status_of[ex], non, status_of[non]), existing=ex, missing=non)
+        # state shared across requests and handlers (e.g. the version-hash cache): after an outside file has been served
+        # legitimately by a handler with a wider root, or named in static_url(), the narrow handler must still refuse it
+        class Page(W.RequestHandler):
+            def get(self):
+                self.write(self.static_url("../other/secret.txt") + " " + self.static_url("a.txt"))
+
+        def mk_app2(res):
+            return W.Application([(r"/wide/(.*)", W.StaticFileHandler, {"path": base}), (r"/static/(.*)", W.StaticFileHandler, {"path": root, "default_filename": "index.html"}),
+                                  (r"/page", Page)], static_path=root)
+        warm = ["/wide/other/secret.txt", "/wide/top.txt", "/wide/static2/s2.txt", "/page", "/wide/other/secret.txt?v=1"]
+        for w in warm:
+            S.run_server([("GET " + w + " HTTP/1.1\r\nHost: h\r\n\r\n").encode()], make_app=mk_app2, eof=False)
+            evals += 1
+        for p in ["../other/secret.txt", "../top.txt", "../static2/s2.txt", "sub/../../other/secret.txt", "..%2fother%2fsecret.txt"]:
+            res = S.run_server([("GET " + prefix + p + " HTTP/1.1\r\nHost: h\r\n\r\n").encode()], make_app=mk_app2, eof=False)
+            parsed = S.split_responses(bytes(res.sent))
+            evals += 1
+            st = int(parsed[0][0].split(b" ")[1]) if parsed and parsed[0][0] != "incomplete" else None
+            nontriv.add(("warm", p))
+            if st != 403 or (parsed and parsed[0][2] in (b"OUTSIDE-SECRET", b"OUTSIDE-TOP", b"OUTSIDE-STATIC2")):
+                fail("after the outside file was served by a wider-root handler / named in static_url, the narrow handler answers %r (body %r)" % (st, parsed[0][2][:30] if parsed else None), path=p)
+        W.StaticFileHandler.reset()
         samples.append({"root": "<tmp>/static", "request": "/static/sub/../../other/secret.txt", "status": status_of.get("sub/../../other/secret.txt")})
     finally:
         shutil.rmtree(base, ignore_errors=True)
